@@ -52,6 +52,7 @@ HARNESS_FILES = {
     "coding_frm.rs": ("src/coding.rs", "verif_frm"),
     "parser_frm.rs": ("src/component/parser.rs", "verif_frm"),
     "source_md5.rs": ("src/source.rs", "verif_md5"),
+    "repeat.rs": ("src/repeat.rs", "verif"),
     "rice_parts.rs": ("src/rice.rs", "verif_parts"),
     "datatype_pre.rs": ("src/component/datatype.rs", "verif_pre"),
     "decode_sig.rs": ("src/component/decode.rs", "verif_sig"),
